@@ -175,6 +175,15 @@ def run(ctx, driver):
             if rng.random() < 0.5:
                 dyn.append({"expression": "V_m' = -V_m / tau_m + %s" % nm, "initial_value": "0"})
             probe = {"indict": {"dynamics": dyn}, "flags": {"disable_stiffness_check": True}, "kind": "option-named"}
+        if i % 8 == 2:
+            # a mixed system: two analytically solved variables enter a numerically solved one with DIFFERENT weights (any pairing of weights and
+            # variables that goes through a set must not depend on hash randomisation)
+            w1, w2 = rng.sample(["2", "-5", "3", "-1/2", "7"], 2)
+            n1, n2 = rng.sample(["I_ex", "I_in", "g_a", "q_b", "zeta"], 2)
+            probe = {"indict": {"dynamics": [{"expression": "V_m' = -V_m**3/tau_m + %s*%s + %s*%s" % (w1, n1, w2, n2), "initial_value": "0"},
+                                             {"expression": "%s' = -%s/tau_1" % (n1, n1), "initial_value": "1"},
+                                             {"expression": "%s' = -%s/tau_2" % (n2, n2), "initial_value": "2"}]},
+                     "flags": {"disable_stiffness_check": True}, "kind": "mixed-fan-in"}
         if i % 8 == 6:
             # a stiffness-checked call (stand-in for PyGSL) with a stimuli block: as a member of the history or as the probe
             sc = gen_stiff_call(rng, variant=i // 8)
@@ -182,7 +191,7 @@ def run(ctx, driver):
                 hist.insert(rng.randrange(len(hist) + 1), sc)
             else:
                 probe = sc
-        cases.append({"calls": hist + [probe], "hashseeds": [1, 4242] if quick else [1, 4242, 77, 123456]})
+        cases.append({"calls": hist + [probe], "hashseeds": ([1, 4242] if quick else [1, 4242, 77, 123456]) + ([3, 8, 10] if probe.get("kind") == "mixed-fan-in" else [])})
     resets = reset_policy_from_source()
     ctx.cov["resets_first_from_source"] = resets
     if not resets:
